@@ -1,3 +1,133 @@
-(* C02 — placeholder while the pipeline is brought up; theorems follow. *)
+(* C02 — Decoders refuse malformed or corrupted frames: no panic, no oversized allocation.
+   This file holds only the property theorems; each is closed by an exact lemma and followed
+   by Print Assumptions.  Model: the decode side of C01/Model.v (codec/v1_codec.go,
+   v2_codec.go, marshal.go, codec.go), every Go bounds check explicit ([Panic]), every make
+   recorded in [r_allocs], every buffer handed to io.ReadFull in [r_reads].
+
+   A stream is ANY list of chunks; [dec], [unzip] are ANY functions (the cipher and zlib enter
+   unconstrained); [hd] = a decryptor is installed; [p0] = the packet being filled. *)
 From Coq Require Import ZArith NArith List Bool.
-From FV Require Import C01.Model.
+From FV Require Import Lib.NList Lib.BE Lib.Crc32 C01.Model C01.ProofsIO C02.Proofs C02.ProofsCrc.
+Import ListNotations.
+Open Scope N_scope.
+
+(* "Whatever bytes arrive on a stream, reading a frame ends with either a packet or an error:
+   it never panics, and it never allocates or waits for more payload than the format's maximum
+   frame size."  bounded_by mx r  =  r_out r <> Panic /\ every allocation <= mx /\ the bytes
+   requested from the reader sum to <= mx *)
+Theorem c02_total_v1 : forall dec unzip hd s p0,
+  bounded_by max1 (read_packet_v1 dec unzip hd s p0).
+Proof. exact total_v1. Qed.
+Print Assumptions c02_total_v1.
+
+Theorem c02_total_v2 : forall dec unzip hd s p0,
+  bounded_by max2 (read_packet_v2 dec unzip hd s p0).
+Proof. exact total_v2. Qed.
+Print Assumptions c02_total_v2.
+
+Theorem c02_total_lendata : forall s, wf_bytes (concat s) -> bounded_by max_u16 (read_len_data s).
+Proof. exact total_lendata. Qed.
+Print Assumptions c02_total_lendata.
+
+(* "A frame whose length field is smaller than the fixed header or larger than the maximum is
+   refused" — with Err ELength, before any payload buffer is made, only the header consumed *)
+Theorem c02_short_long_len_refused_v1 : forall dec unzip hd s p0,
+  hs1 <= lenN (concat s) -> get16 (concat s) < hs1 \/ max1 < get16 (concat s) ->
+  refused hs1 (read_packet_v1 dec unzip hd s p0) (concat s).
+Proof. exact refuse_v1. Qed.
+Print Assumptions c02_short_long_len_refused_v1.
+
+Theorem c02_short_long_len_refused_v2 : forall dec unzip hd s p0,
+  hs2 <= lenN (concat s) -> get24 (concat s) < hs2 \/ max2 < get24 (concat s) ->
+  refused hs2 (read_packet_v2 dec unzip hd s p0) (concat s).
+Proof. exact refuse_v2. Qed.
+Print Assumptions c02_short_long_len_refused_v2.
+
+Theorem c02_short_len_refused_lendata : forall s,
+  2 <= lenN (concat s) -> get16 (concat s) < 2 -> refused 2 (read_len_data s) (concat s).
+Proof. exact refuse_lendata. Qed.
+Print Assumptions c02_short_len_refused_lendata.
+
+(* "a frame altered in any checksum-covered bit ... is reported as an error": every single-bit
+   flip outside the length field of a frame the decoder accepts yields a checksum error
+   (CRC-32 is linear over GF(2) and its register step is injective: Lib/Crc32.crc32_flip_ne) *)
+Theorem c02_crc_single_bit_v1 : forall dec unzip hd frame p0 i s p1,
+  wf_bytes frame -> accepted (read_packet_v1 dec unzip hd [frame] p0) ->
+  16 <= i -> i < 8 * lenN frame -> concat s = flip_bit i frame ->
+  r_out (read_packet_v1 dec unzip hd s p1) = Err EChecksum.
+Proof. exact crc_flip_v1. Qed.
+Print Assumptions c02_crc_single_bit_v1.
+
+Theorem c02_crc_single_bit_v2 : forall dec unzip hd frame p0 i s p1,
+  wf_bytes frame -> accepted (read_packet_v2 dec unzip hd [frame] p0) ->
+  24 <= i -> i < 8 * lenN frame -> concat s = flip_bit i frame ->
+  r_out (read_packet_v2 dec unzip hd s p1) = Err EChecksum.
+Proof. exact crc_flip_v2. Qed.
+Print Assumptions c02_crc_single_bit_v2.
+
+(* "truncated at any offset": every proper prefix of an accepted frame ends in io.EOF or
+   io.ErrUnexpectedEOF, however it is chunked *)
+Theorem c02_truncation_v1 : forall dec unzip hd frame p0,
+  accepted (read_packet_v1 dec unzip hd [frame] p0) ->
+  forall k s p1, k < lenN frame -> concat s = takeN k frame ->
+  eof_kind (r_out (read_packet_v1 dec unzip hd s p1)).
+Proof. exact truncation_v1. Qed.
+Print Assumptions c02_truncation_v1.
+
+Theorem c02_truncation_v2 : forall dec unzip hd frame p0,
+  accepted (read_packet_v2 dec unzip hd [frame] p0) ->
+  forall k s p1, k < lenN frame -> concat s = takeN k frame ->
+  eof_kind (r_out (read_packet_v2 dec unzip hd s p1)).
+Proof. exact truncation_v2. Qed.
+Print Assumptions c02_truncation_v2.
+
+Theorem c02_truncation_lendata : forall frame,
+  wf_bytes frame -> accepted (read_len_data [frame]) ->
+  forall k s, k < lenN frame -> concat s = takeN k frame -> eof_kind (r_out (read_len_data s)).
+Proof. exact truncation_lendata. Qed.
+Print Assumptions c02_truncation_lendata.
+
+(* "whose body no longer matches its flags (undecryptable, not decompressible, reference count
+   larger than the body) is reported as an error instead of being delivered as a packet" *)
+Theorem c02_flag_body_mismatch_v1 : forall dec unzip hd s p0 h b,
+  r_out (read_head_body_v1 s) = Ok (h, b) -> 0 < lenN b ->
+  flags_mismatch dec unzip hd (byte_at 3 h) b ->
+  is_err (r_out (read_packet_v1 dec unzip hd s p0)).
+Proof. exact flag_mismatch_v1. Qed.
+Print Assumptions c02_flag_body_mismatch_v1.
+
+Theorem c02_flag_body_mismatch_v2 : forall dec unzip hd s p0 h b,
+  r_out (read_head_body_v2 s) = Ok (h, b) ->
+  byte_at 5 h * 4 < lenN b ->
+  flags_mismatch dec unzip hd (byte_at 4 h) (dropN (byte_at 5 h * 4) b) ->
+  is_err (r_out (read_packet_v2 dec unzip hd s p0)).
+Proof. exact flag_mismatch_v2. Qed.
+Print Assumptions c02_flag_body_mismatch_v2.
+
+Theorem c02_refcount_mismatch_v2 : forall dec unzip hd s p0 h b,
+  r_out (read_head_body_v2 s) = Ok (h, b) -> lenN b < byte_at 5 h * 4 ->
+  is_err (r_out (read_packet_v2 dec unzip hd s p0)).
+Proof. exact refcount_mismatch_v2. Qed.
+Print Assumptions c02_refcount_mismatch_v2.
+
+(* ---------------------------------------------------------------------------------- *)
+(* non-vacuity: a frame the V1 decoder accepts (14-byte header + "hi", checksum computed by
+   the model), the hypotheses of the flip and truncation theorems hold for it, and the model
+   computes the refusals *)
+Definition ex_frame : bytes :=
+  let h10 := [0; 16; 1; 32; 2; 1; 0; 0; 0; 7] in h10 ++ be32 (crc32 (h10 ++ [104; 105])) ++ [104; 105].
+
+Example c02_example :
+  wf_bytes ex_frame
+  /\ accepted (read_packet_v1 (fun b => b) (fun _ => None) false [ex_frame] packet0)
+  /\ r_out (read_packet_v1 (fun b => b) (fun _ => None) false [flip_bit 77 ex_frame] packet0) = Err EChecksum
+  /\ r_out (read_packet_v1 (fun b => b) (fun _ => None) false [[0]; [3; 9; 9]; ex_frame] packet0) = Err ELength
+  /\ r_out (read_packet_v1 (fun b => b) (fun _ => None) false [takeN 15 ex_frame] packet0) = Err EUnexpectedEOF.
+Proof.
+  split; [|split; [|split; [|split]]].
+  - vm_compute. repeat (apply Forall_cons; [reflexivity|]). apply Forall_nil.
+  - split; [eexists; vm_compute; reflexivity|vm_compute; reflexivity].
+  - vm_compute. reflexivity.
+  - vm_compute. reflexivity.
+  - vm_compute. reflexivity.
+Qed.
